@@ -95,6 +95,17 @@ PROPS = {
                  'non-empty span of the buffer, rule start/end pairing also on error paths, isWordChar table',
         'not_decided': ['that a later change to P re-executes the command (paper lemma L1)', 'file reading'],
     },
+    'C12': {
+        'units': ['dirtree'],
+        'design_ref': 'DESIGN.md section 4, C12 (lemma L2 on paper)',
+        'claim': 'kernel: a directory-tree (structure) signature task requests the (filtered) contents key of its path, one node key per listed name in '
+                 'order and, for every child that is an existing directory, exactly one sub-tree signature key for path/name WITH THE SAME FILTERS; stores '
+                 'each value in the slot of its id; feeds the hash chain with the path, the directory value (structure: only its mode) and for every child '
+                 'in order its value (structure: its name and its mode) and its sub-signature or the nil marker; DirectoryContentsTask::isResultValid '
+                 'invalidates on existence, type, stat or listing changes (length and names in order)',
+        'not_decided': ['real directory iteration, symlinks, fnmatch filtering (getFilteredContents not under contract)', 'that a deep edit reaches the root '
+                        '(lemma L2, induction on depth, paper)', 'hash collision freedom', 'names are compared by identity (string equality is assumed)'],
+    },
     'C13': {
         'units': ['fileinfo', 'fswrap'],
         'design_ref': 'DESIGN.md section 4, C13',
